@@ -166,7 +166,10 @@ def stepFrame (d : RS) (rest : Toks) (impl : String) : Option (RS × String) := 
   let sorted := specSort used
   let (hov, hv) := hoverScan d.hover tr
   -- hover set after the frame = surfaces of the first layout under the pointer
-  let expected := d.pointer.map fun (c, r) => (underRoot t1 c r).map (·.w)
+  -- (no pointer known — before the first mouse event or after terminal focus left — nothing is entered)
+  let expected : Option (List Nat) := some (match d.pointer with
+    | some (c, r) => (underRoot t1 c r).map (·.w)
+    | none => [])
   let (hm, hov', gh) := hoverVerdict d d.ghost hov hv expected
   -- path after the frame: handlers called by mh.update may move the focus before updatePath runs, so
   -- the focus updatePath saw is the previous one or the receiver of one of the FocusIn calls
